@@ -360,7 +360,25 @@ func buildDil(entry, lenKind, k int, hintKind int, seed uint64, honest []byte, p
 	body := append([]byte{}, honest...)
 	const offHint, offCnt = 32 + 7*640, 32 + 7*640 + 75
 	cls := ""
-	switch hintKind % 10 {
+	switch hintKind % 11 {
+	case 10:
+		// structured zeros: z = 0 (every 20-bit lane holds gamma1) and / or a public key whose t1 part is all zero, the
+		// honest hint section kept: the verifier's w' = A*z - c*t1*2^d is then exactly 0 (or has long runs of exact
+		// zeros), so the hinted coefficients have low part 0 - a value honest signatures meet once in 10^4
+		zeroZ, zeroT1 := seed&1 == 0, seed&2 == 0 || seed&1 != 0
+		if zeroZ {
+			for i := 32; i < offHint; i += 5 {
+				copy(body[i:i+5], []byte{0x00, 0x00, 0x08, 0x00, 0x80})
+			}
+		}
+		if zeroT1 {
+			np := append([]byte{}, pk...)
+			for i := 32; i < len(np); i++ {
+				np[i] = 0
+			}
+			c.PK = np
+		}
+		cls = fmt.Sprintf("zero-response=%v/zero-t1=%v/honest-hints", zeroZ, zeroT1)
 	case 9:
 		// a challenge seed whose expansion consumes unusually many stream bytes (found offline, see pu.HungryChallengeSeeds)
 		cs, nb := pu.HungryChallengeSeed(int(seed % 1000))
@@ -437,7 +455,7 @@ func buildDil(entry, lenKind, k int, hintKind int, seed uint64, honest []byte, p
 
 func TestDilithiumHostile(t *testing.T) {
 	r := ev.New(t, prop, "TestDilithiumHostile")
-	r.Rule("rapid: dilithium.Verify and Open with sealed messages of length {0,1,2, CryptoBytes-1, CryptoBytes, CryptoBytes+1, arbitrary shorter, full}, hint sections with every count byte value 0..255 and position bytes 0..255, the strictly-increasing count chain that walks a guard-less decoder past the end of the section, challenge seeds (first 32 bytes) whose expansion consumes 97..102 stream bytes instead of the usual ~75 (found by an offline search), garbage / all-zero / all-0xFF signatures, random and honest public keys; oracle: returns (false / nothing / the message), NEVER panics, buffers unchanged; non-trivial = an input whose sealed length is at least CryptoBytes (reaches unpacking), distinct by content")
+	r.Rule("rapid: dilithium.Verify and Open with sealed messages of length {0,1,2, CryptoBytes-1, CryptoBytes, CryptoBytes+1, arbitrary shorter, full}, hint sections with every count byte value 0..255 and position bytes 0..255, the strictly-increasing count chain that walks a guard-less decoder past the end of the section, challenge seeds (first 32 bytes) whose expansion consumes 97..102 stream bytes instead of the usual ~75 (found by an offline search), a zero response and / or a zero t1 under honest hints (hinted coefficients with low part exactly 0), garbage / all-zero / all-0xFF signatures, random and honest public keys; oracle: returns (false / nothing / the message), NEVER panics, buffers unchanged; non-trivial = an input whose sealed length is at least CryptoBytes (reaches unpacking), distinct by content")
 	d, err := pu.DilKey(pu.DetBytes(r.SubSeed("key"), 48))
 	r.Health(err == nil, "keygen")
 	pk := d.GetPK()
@@ -450,7 +468,7 @@ func TestDilithiumHostile(t *testing.T) {
 		if rapid.IntRange(0, 3).Draw(rt, "rndpk") == 0 {
 			usePK = pu.DetBytes(rapid.Uint64().Draw(rt, "pk"), dilithium.CryptoPublicKeyBytes)
 		}
-		c := buildDil(rapid.IntRange(0, 1).Draw(rt, "entry"), rapid.IntRange(0, 5).Draw(rt, "lenKind"), rapid.IntRange(0, 9999).Draw(rt, "k"), rapid.IntRange(0, 9).Draw(rt, "hintKind"),
+		c := buildDil(rapid.IntRange(0, 1).Draw(rt, "entry"), rapid.IntRange(0, 5).Draw(rt, "lenKind"), rapid.IntRange(0, 9999).Draw(rt, "k"), rapid.IntRange(0, 10).Draw(rt, "hintKind"),
 			rapid.Uint64().Draw(rt, "seed"), hs[:], usePK, len(m))
 		if strings.HasPrefix(c.Class, "honest") && c.Entry == "dilithium.Verify" {
 			c.Msg = m
